@@ -588,6 +588,8 @@ def check_merges(repo: Repo, res: Result, interp: A.Interp, tails: set, final_di
                 res.add("C06.R2", construct, True, "the stored value is built from what is already recorded for the key", where_, kind="structural")
             elif ("absent", e.key_text) in facts or (("absent-or-empty", e.key_text) in facts):
                 res.add("C06.R2", construct, True, "the store creates the entry of a key that is not in the dict yet", where_, kind="structural")
+            elif e.fresh_empty and fills_fresh_dict(e, per_dict):
+                res.add("C06.R2", construct, True, "empty entries are created before anything is recorded in the dict", where_, kind="structural")
             elif e.key.uniq is not None and (only_site or fills_fresh_dict(e, per_dict)):
                 res.add("C06.R2", construct, True, "the keys are the distinct keys of the dict / set being iterated and the dict is empty before: no two stores go to the same key", where_, kind="structural")
             elif e.key.uniq is not None:
